@@ -105,7 +105,7 @@ def _case(draw, tier):
             mesh = draw(meshgen.hull_mesh(6, 30 if big else 14, partial=True))
         else:
             mesh = draw(meshgen.latlon_mesh_st())
-        return {"mode": "mesh", "mesh": mesh, "radius": draw(_radius())}
+        return {"mode": "mesh", "mesh": mesh, "radius": draw(_radius()), "coord_dtype": draw(_cdtype())}
     face = None
     if mode == "bulge":
         face = draw(_bulge_face())
@@ -114,7 +114,13 @@ def _case(draw, tier):
     if face is None:
         face = draw(facegen.convex_face(max_class=3, tiny=True))
         mode = "face"
-    return {"mode": mode, "face": face, "radius": draw(_radius())}
+    return {"mode": mode, "face": face, "radius": draw(_radius()), "coord_dtype": draw(_cdtype())}
+
+
+def _cdtype():
+    """Storage type of the source's node_lon / node_lat: float32 sources are judged on the positions their stored
+    values denote, with float32-sized tolerances."""
+    return st.sampled_from(["float64", "float64", "float64", "float32"])
 
 
 def _radius():
@@ -217,7 +223,7 @@ def analyse_face(vs):
     return out
 
 
-def judge_face(vs, box, site, ctx, fails, label=""):
+def judge_face(vs, box, site, ctx, fails, label="", SLACK=SLACK, TIGHT=1e-7):
     on = [abs(v[1]) <= 2e-7 and v[0] > 1e-9 for v in vs]
     polar = [math.hypot(v[0], v[1]) <= 1e-9 for v in vs]
     if any(on):
@@ -273,19 +279,21 @@ def judge_face(vs, box, site, ctx, fails, label=""):
             fails.append(Failure("pole_face", site, "not-full-circle", f"{label} pole {exp['pole_inside']} strictly inside but lon bounds {box[1].tolist()}"))
     # ---- tight
     ctx.ev("lat_tight")
-    if lat_min < e_lo - 1e-7 or lat_max > e_hi + 1e-7:
+    if lat_min < e_lo - TIGHT or lat_max > e_hi + TIGHT:
         fails.append(Failure("lat_tight", site, "not-attained", f"{label} reported lat [{lat_min!r}, {lat_max!r}] but boundary attains only [{e_lo!r}, {e_hi!r}]"))
     if exp["lon"] != "full":
         ctx.ev("lon_shortest")
         lo, hi = exp["lon"]
         full = lon_max - lon_min >= TWO_PI - 1e-9
-        if full or _circ_dist(lon_min, lo) > 1e-7 or _circ_dist(lon_max, hi) > 1e-7:
+        if full or _circ_dist(lon_min, lo) > TIGHT or _circ_dist(lon_max, hi) > TIGHT:
             # only a tightness failure when the reported interval does cover the expected one
             fails.append(Failure("lon_shortest", site, "not-shortest", f"{label} reported lon [{lon_min!r}, {lon_max!r}] expected shortest cover [{lo % TWO_PI!r}, {hi % TWO_PI!r}]"))
 
 
 def _site(case):
     r = ":cartesian-radius" if case.get("radius") not in (None, 1.0) else ""
+    if case.get("coord_dtype") == "float32":
+        r = ":float32-coordinates"
     if case["mode"] == "mesh":
         return "mesh" + r
     return case["mode"] + r
@@ -326,11 +334,26 @@ def classify(case):
     return labs, nontrivial
 
 
+def _as_stored(lonlat, dtype):
+    """The positions a source of that storage type denotes."""
+    if dtype == "float32":
+        return [[float(np.float32(a)), float(np.float32(b))] for a, b in lonlat]
+    return lonlat
+
+
 def run_case(case, ctx):
     fails = []
+    f32 = case.get("coord_dtype") == "float32"
+    tol = dict(SLACK=5e-7, TIGHT=1e-6) if f32 else {}
+    if f32:
+        case = dict(case, radius=None)
+        if case["mode"] == "mesh":
+            case["mesh"] = dict(case["mesh"], nodes=_as_stored(case["mesh"]["nodes"], "float32"))
+        else:
+            case["face"] = dict(case["face"], lonlat=_as_stored(case["face"]["lonlat"], "float32"))
     if case["mode"] == "mesh":
         mesh = case["mesh"]
-        g = build.grid_from_mesh(mesh, **(build.cartesian_kw(mesh, case["radius"]) if case.get("radius") else {}))
+        g = build.grid_from_mesh(mesh, **(build.cartesian_kw(mesh, case["radius"]) if case.get("radius") else {}), **({"coord_dtype": "float32"} if f32 else {}))
         b = np.asarray(g.bounds.values, float)
         ctx.ev("bounds_shape")
         if b.shape != (len(mesh["faces"]), 2, 2):
@@ -342,13 +365,13 @@ def run_case(case, ctx):
                 continue
             if max(S.angle(vs[i], vs[(i + 1) % len(vs)]) for i in range(len(vs))) > math.radians(120):
                 continue
-            judge_face(vs, b[fi], _site(case), ctx, fails, label=f"face {fi} {[mesh['nodes'][i] for i in f]}")
+            judge_face(vs, b[fi], _site(case), ctx, fails, label=f"face {fi} {[mesh['nodes'][i] for i in f]}", **tol)
         return fails
     face = case["face"]
     mesh = {"nodes": face["lonlat"], "faces": [list(range(len(face["lonlat"])))]}
-    g = build.grid_from_mesh(mesh, **(build.cartesian_kw(mesh, case["radius"]) if case.get("radius") else {}))
+    g = build.grid_from_mesh(mesh, **(build.cartesian_kw(mesh, case["radius"]) if case.get("radius") else {}), **({"coord_dtype": "float32"} if f32 else {}))
     b = np.asarray(g.bounds.values, float)
     if b.shape != (1, 2, 2):
         return [Failure("encloses", _site(case), "shape", f"bounds shape {b.shape}")]
-    judge_face(facegen.face_vectors(face), b[0], _site(case), ctx, fails, label=f"face {face['lonlat']}")
+    judge_face(facegen.face_vectors(face), b[0], _site(case), ctx, fails, label=f"face {face['lonlat']}", **tol)
     return fails
